@@ -39,7 +39,7 @@ def transition(tr, equation=None):
 
 def event_object(ev, route):
     _S, _T, Event, _u = _pg()
-    rate = ir.to_str(ev["rate"])
+    rate = ir.to_str_top(ev["rate"])
     if route in ("event", "add_event"):
         return Event(rate=rate, transition_list=[transition(t) for t in ev["trans"]])
     if route == "event_eq":
@@ -112,8 +112,8 @@ def build(m, routes=None, perm=None, backend="lambda", as_ode=False):
     n_e = len(events)
     routes = list(routes) if routes is not None else ["event"] * n_e
     perm = list(perm) if perm is not None else list(range(n_e))
-    derived = [(d["name"], ir.to_str(d["expr"])) for d in m.get("derived", [])] or None
-    odes = [Transition(origin=o["state"], equation=ir.to_str(o["expr"]), transition_type="ODE")
+    derived = [(d["name"], ir.to_str_top(d["expr"])) for d in m.get("derived", [])] or None
+    odes = [Transition(origin=o["state"], equation=ir.to_str_top(o["expr"]), transition_type="ODE")
             for o in m.get("odes", [])]
     ctor_event, ctor_trans, ctor_bd, later = [], [], [], []
     o_event, o_trans, o_bd, o_later = [], [], [], []
